@@ -183,6 +183,44 @@ def work_partial(chunk):
     return res
 
 
+def work_truncated(chunk):
+    """After a complete (non-matching, hence skipped) datagram has passed through the receive buffer, every proper
+    prefix of the matching reply is delivered: the missing tail was never written for *this* datagram, so nothing may
+    be delivered from it."""
+    from .. import refber as rb
+
+    res = common.Result()
+    SYS = (1, 3, 6, 1, 2, 1, 1, 5, 0)
+    for case in chunk:
+        cfg = Cfg.from_desc(case["cfg"])
+        w = drivers.SplitWorld(cfg)
+        try:
+            o = w.send("get", rb.oid_str(SYS))
+            req = drivers.open_request(cfg, w.take_request(), strict=False, check_mac=False)
+            genuine = drivers.reply_for(cfg, req, [(SYS, rb.enc_octets(b"G" * case["n"]))])
+            decoy = drivers.reply_for(cfg, req, [(SYS, rb.enc_octets(b"LEFTOVER" * (case["n"] // 8 + 1))[: case["n"] + 2])], request_id=(req.request_id + 1) & 0x7FFFFFFF)
+            decoy = drivers.reply_for(cfg, req, [(SYS, rb.enc_octets((b"LEFTOVER" * (case["n"] // 8 + 1))[: case["n"]]))], request_id=(req.request_id + 1) & 0x7FFFFFFF)
+            for t in range(1, len(genuine)):
+                w.inject(decoy)
+                w.recv("get")
+                w.inject(genuine[:t])
+                out = w.recv("get")
+                res.count("requests")
+                res.count("truncated_datagrams")
+                res.distinct()
+                res.outcome("truncated:" + ("value" if out.kind == "ok" else out.exc_name))
+                if out.kind == "ok" or out.is_panic():
+                    res.violation(
+                        "stale-bytes-read/%s" % (cfg.name if cfg.version == "v3" else cfg.version),
+                        "the first %d of %d octets of the reply (after a complete foreign datagram of the same size) produced %r" % (t, len(genuine), out.brief()),
+                        {"cfg": case["cfg"], "n": case["n"], "truncated": True},
+                    )
+                    break
+        finally:
+            w.close()
+    return res
+
+
 def work(chunk):
     res = common.Result()
     res["sweeps"] = []
@@ -225,6 +263,9 @@ def replay(case):
     if "history" in case:
         probs, r = histories.run_history(case["cfgs"], case["history"], ("reply",))
         return {"problems": [(c, t) for c, t, _ in probs]}
+    if case.get("truncated"):
+        r = work_truncated([case])
+        return {"violations": [(v[0], v[1]) for v in r["violations"]]}
     if "variants" in case:
         r = work_padding([case])
         return {"violations": [(v[0], v[1]) for v in r["violations"]]}
@@ -245,6 +286,7 @@ def run(tier):
     rec.assume(
         "request-id and msgID are pinned to 4-octet values through the RNG seam during the sweep (their random width would otherwise move the threshold by up to 6 octets; "
         "without the seam an 8-octet tolerance is applied)",
+        "every proper prefix of a reply, delivered after a complete foreign datagram of the same size went through the receive buffer, yields an error or is skipped - never a value",
         "a DES reply whose ciphertext is not a whole number of blocks must not be delivered (the tail was never written into the private buffer)",
         "padding inside the ciphertext may have any value the library writes for the request at hand, but must be the same whatever the session sent or decrypted before",
         "request size grows monotonically with the swept parameter; privacy adds a second (private) buffer, so for privacy configurations only monotonicity, clean refusal and intact "
@@ -302,6 +344,10 @@ def run(tier):
             h = [["get", 0, "sys"], ["reply", 0, "octets", 61], ["get", 0, "sys"], ["reply", 0, "partial", k], ["reply", 0, "octets", 20 + k]]
             part.append({"cfgs": [cfg.describe()], "history": h})
     for _, res in pool.run(work_partial, [part[i : i + 4] for i in range(0, len(part), 4)], timeout=600, case_timeout=300, log_path=lp, on_failure=on_failure):
+        rec.merge(res)
+    # truncated datagrams after a complete one
+    tcases = [{"cfg": c.describe(), "n": n} for c in (Cfg("v1"), Cfg("v2c"), Cfg("v3")) for n in (8, 40, 200)]
+    for _, res in pool.run(work_truncated, [[c] for c in tcases], timeout=600, case_timeout=300, log_path=lp, on_failure=on_failure):
         rec.merge(res)
     # one common threshold per non-privacy configuration across octet-granular dimensions
     by = {}
